@@ -174,8 +174,9 @@ Definition m_substitute (c : call) : res :=
   end.
 
 (* ---- delete-duplicates.go (remove-duplicates embeds it) ----------------------------------------- *)
-(* has(v): k := key(v); true when some u in uniq has test(k, u) (default ObjectEqual); otherwise k is
-   appended to uniq.  Without :from-end the sequence is walked backwards and the result reversed. *)
+(* has(v): k := key(v); true when some u in uniq has test(k, u) (default ObjectEqual); k is appended to
+   uniq in either case, so an element is compared with EVERY element of the bounded part examined
+   before it.  Without :from-end the sequence is walked backwards and the result reversed. *)
 Definition dup_test (t : testarg) (a b : Z) : bool :=
   match t with TDefault => a =? b | TTest f => test_app f a b | TTestNot f => negb (test_app f a b) end.
 Fixpoint dup_loop (t : testarg) (k : option keyfn) (start e : nat) (ps : list (nat * Z)) (uniq : list Z) : list Z :=
@@ -184,7 +185,7 @@ Fixpoint dup_loop (t : testarg) (k : option keyfn) (start e : nat) (ps : list (n
   | (i, x) :: r =>
       if ((i <? start) || (e <=? i))%nat then x :: dup_loop t k start e r uniq
       else let kx := key_app k x in
-           if existsb (fun u => dup_test t kx u) uniq then dup_loop t k start e r uniq
+           if existsb (fun u => dup_test t kx u) uniq then dup_loop t k start e r (uniq ++ [kx])
            else x :: dup_loop t k start e r (uniq ++ [kx])
   end.
 Definition m_dups (c : call) (v : sfv) : res :=
